@@ -28,6 +28,8 @@ class View:
         return getattr(self._ctx, name)
 
     def __setattr__(self, name, value):
+        if name in ('rules', 'explanation', 'samples'):
+            return                      # a whole run() of another property seen through the view keeps the host's description
         setattr(self._ctx, name, value)
 
     def inst(self, rule, subject, ok, what, span=None, nontrivial=True, detail=None, key=None):
